@@ -23,6 +23,10 @@ type Merger struct {
 
 	less    func(a, b *sam.Record) bool
 	readers []*reader
+
+	// err is the first error, other than io.EOF, returned
+	// by a source Reader.
+	err error
 }
 
 type reader struct {
@@ -86,16 +90,26 @@ func NewMerger(less func(a, b *sam.Record) bool, src ...*Reader) (*Merger, error
 	case sam.Coordinate:
 		m.less = (*sam.Record).LessByCoordinate
 	}
+	m.readers = m.readers[:0]
 	for i, r := range src {
+		readers[i] = reader{id: i, r: r}
 		if m.less == nil {
-			readers[i].id = i
-			readers[i].r = r
-			m.readers[i] = &readers[i]
+			m.readers = append(m.readers, &readers[i])
 			continue
 		}
 		rec, err := r.Read()
-		readers[i] = reader{id: i, r: r, head: rec, err: err}
-		m.readers[i] = &readers[i]
+		if err == io.EOF {
+			// An empty source has nothing to contribute.
+			continue
+		}
+		if err != nil {
+			return nil, err
+		}
+		// Link the record to the merged header before it is
+		// compared with records from other sources.
+		m.reassignReference(i, rec)
+		readers[i].head = rec
+		m.readers = append(m.readers, &readers[i])
 	}
 	if m.less != nil {
 		heap.Init((*bySortOrderAndID)(m))
@@ -114,6 +128,9 @@ func (m *Merger) Header() *sam.Header {
 //
 // The Read behaviour will depend on the underlying Readers.
 func (m *Merger) Read() (rec *sam.Record, err error) {
+	if m.err != nil {
+		return nil, m.err
+	}
 	if len(m.readers) == 0 {
 		return nil, io.EOF
 	}
@@ -124,41 +141,50 @@ func (m *Merger) Read() (rec *sam.Record, err error) {
 }
 
 func (m *Merger) cat() (rec *sam.Record, err error) {
-	id := m.readers[0].id
-	rec, err = m.readers[0].r.Read()
-	if err == io.EOF && len(m.readers) != 0 {
-		m.readers = m.readers[1:]
-		err = nil
+	for len(m.readers) != 0 {
+		id := m.readers[0].id
+		rec, err = m.readers[0].r.Read()
+		if err == io.EOF {
+			m.readers = m.readers[1:]
+			continue
+		}
+		if err != nil {
+			m.err = err
+			return nil, err
+		}
+		m.reassignReference(id, rec)
+		return rec, nil
 	}
-	if rec == nil {
-		return m.Read()
-	}
-	m.reassignReference(id, rec)
-	return rec, err
+	return nil, io.EOF
 }
 
 func (m *Merger) nextBySortOrder() (rec *sam.Record, err error) {
 	reader := m.pop()
-	rec, err = reader.head, reader.err
+	rec = reader.head
 	reader.head, reader.err = reader.r.Read()
-	if reader.err == nil {
+	switch reader.err {
+	case nil:
+		m.reassignReference(reader.id, reader.head)
 		m.push(reader)
+	case io.EOF:
+	default:
+		// rec was read successfully and is returned now; the
+		// failure of its source is reported by the next Read.
+		m.err = reader.err
 	}
-	if rec == nil {
-		return m.Read()
-	}
-	if err == io.EOF {
-		err = nil
-	}
-	m.reassignReference(reader.id, rec)
-	return rec, err
+	return rec, nil
 }
 
 func (m *Merger) reassignReference(id int, rec *sam.Record) {
-	if rec.Ref == nil || m.refLinks == nil {
+	if m.refLinks == nil {
 		return
 	}
-	rec.Ref = m.refLinks[id][rec.RefID()]
+	if rec.Ref != nil {
+		rec.Ref = m.refLinks[id][rec.Ref.ID()]
+	}
+	if rec.MateRef != nil {
+		rec.MateRef = m.refLinks[id][rec.MateRef.ID()]
+	}
 }
 
 func (m *Merger) push(r *reader) { heap.Push((*bySortOrderAndID)(m), r) }
